@@ -4,11 +4,29 @@ package execute
 
 import (
 	"context"
+	"encoding/binary"
+	"encoding/hex"
+	"errors"
+	"math/big"
+	"sort"
 	"testing"
+	"time"
+
+	"github.com/smartcontractkit/chainlink-common/pkg/hashutil"
+	"github.com/smartcontractkit/chainlink-common/pkg/merklemulti"
+	"github.com/smartcontractkit/libocr/commontypes"
+	"github.com/smartcontractkit/libocr/offchainreporting2plus/ocr3types"
+	"github.com/smartcontractkit/libocr/offchainreporting2plus/types"
+	libocrtypes "github.com/smartcontractkit/libocr/ragep2p/types"
 
 	"github.com/smartcontractkit/chainlink-ccip/execute/exectypes"
+	"github.com/smartcontractkit/chainlink-ccip/execute/report"
+	"github.com/smartcontractkit/chainlink-ccip/internal/libs/slicelib"
+	typeconv "github.com/smartcontractkit/chainlink-ccip/internal/libs/typeconv"
 	"github.com/smartcontractkit/chainlink-ccip/internal/mocks"
+	"github.com/smartcontractkit/chainlink-ccip/internal/plugincommon"
 	cciptypes "github.com/smartcontractkit/chainlink-ccip/pkg/types/ccipocr3"
+	"github.com/smartcontractkit/chainlink-ccip/pluginconfig"
 )
 
 // scripted ExecReportBuilder: entry k >= 0: Add succeeds, marks k more messages executed and appends a chain
@@ -110,5 +128,452 @@ func TestVerif_C08_select(t *testing.T) {
 		}()
 		in := cPair(cList(scriptS), cList(shape))
 		sink.Emit("C08_sel", "scripted", ncd > 0, cPair(in, out), map[string]any{"commit_reports": ncd, "script": script, "add_calls": b.calls})
+	}
+}
+
+// =====================================================================================================
+// part out: the real execute.Plugin in the Filter state.  Previous outcome = a GetMessages outcome (pending commit
+// reports with messages, token data, costly flags), attributed observations carrying nonces, Plugin.Outcome decoded.
+// =====================================================================================================
+
+const vC08PDest = cciptypes.ChainSelector(900)
+const vC08PMaxReport = 1024 * 1024 // execute/factory.go maxReportLength, restated here on purpose
+
+// codec oracle: base + weight*len(Data) per message + 32 per proof + 3 per token data entry
+type vC08PCodec struct{ base, weight int }
+
+func (c vC08PCodec) Encode(_ context.Context, rep cciptypes.ExecutePluginReport) ([]byte, error) {
+	size := c.base
+	for _, cr := range rep.ChainReports {
+		for _, m := range cr.Messages {
+			size += c.weight * len(m.Data)
+		}
+		size += 32 * len(cr.Proofs)
+		for _, td := range cr.OffchainTokenData {
+			size += 3 * len(td)
+		}
+	}
+	return make([]byte, size), nil
+}
+func (c vC08PCodec) Decode(context.Context, []byte) (cciptypes.ExecutePluginReport, error) {
+	return cciptypes.ExecutePluginReport{}, errors.New("not used")
+}
+
+type vC08PEst struct {
+	gas      map[cciptypes.Bytes32]uint64
+	tga, tgb uint64
+}
+
+func (e vC08PEst) CalculateMerkleTreeGas(n int) uint64               { return e.tga + e.tgb*uint64(n) }
+func (e vC08PEst) CalculateMessageMaxGas(m cciptypes.Message) uint64 { return e.gas[m.Header.MessageID] }
+
+// reference tree over keccak (mirrors Merkle.v layers_from / pair_up); fills the hash table
+type vC08PTab struct {
+	in   *vIntern
+	rows map[[2]uint64]bool
+	list []string
+}
+
+func (t *vC08PTab) id(h [32]byte) uint64 { return t.in.Id(hex.EncodeToString(h[:])) }
+func (t *vC08PTab) root(leaves [][32]byte) [32]byte {
+	k := hashutil.NewKeccak()
+	layer := append([][32]byte{}, leaves...)
+	for len(layer) > 1 {
+		if len(layer)%2 != 0 {
+			layer = append(layer, k.ZeroHash())
+		}
+		var next [][32]byte
+		for i := 0; i < len(layer); i += 2 {
+			c := k.HashInternal(layer[i], layer[i+1])
+			a, b := t.id(layer[i]), t.id(layer[i+1])
+			if a > b {
+				a, b = b, a
+			}
+			if !t.rows[[2]uint64{a, b}] {
+				t.rows[[2]uint64{a, b}] = true
+				t.list = append(t.list, cTup(cN(a), cN(b), cN(t.id(c))))
+			}
+			next = append(next, c)
+		}
+		layer = next
+	}
+	if len(layer) == 0 {
+		return [32]byte{}
+	}
+	return layer[0]
+}
+
+type vC08PPrinter struct {
+	tab     *vC08PTab
+	senders *vIntern
+	datas   *vIntern
+	gas     map[cciptypes.Bytes32]uint64
+	weight  int
+}
+
+func (p *vC08PPrinter) msgOf(m cciptypes.Message) string {
+	s := typeconv.AddressBytesToString(m.Sender[:], uint64(vC08PDest))
+	return cApp("mkMsg", cN(p.tab.id(m.Header.MessageID)), cN(uint64(m.Header.SourceChainSelector)),
+		cN(uint64(m.Header.SequenceNumber)), cN(m.Header.Nonce), cN(p.senders.Id(s)), cNi(p.weight*len(m.Data)),
+		cN(p.gas[m.Header.MessageID]))
+}
+func (p *vC08PPrinter) cdOf(cd exectypes.CommitData) string {
+	ex := make([]string, len(cd.ExecutedMessages))
+	for i, e := range cd.ExecutedMessages {
+		ex[i] = cN(uint64(e))
+	}
+	co := make([]string, len(cd.CostlyMessages))
+	for i, e := range cd.CostlyMessages {
+		co[i] = cN(p.tab.id(e))
+	}
+	td := make([]string, len(cd.MessageTokenData))
+	for i, mtd := range cd.MessageTokenData {
+		td[i] = cMap(mtd.TokenData, func(t exectypes.TokenData) string {
+			return cPair(cBool(t.Ready), cN(p.datas.Id(hex.EncodeToString(t.Data))))
+		})
+	}
+	return cApp("mkCD", cN(uint64(cd.SourceChain)), cN(p.tab.id(cd.MerkleRoot)),
+		cN(uint64(cd.SequenceNumberRange.Start())), cN(uint64(cd.SequenceNumberRange.End())),
+		cList(ex), cMap(cd.Messages, p.msgOf), cList(co), cList(td))
+}
+func (p *vC08PPrinter) repOf(r cciptypes.ExecutePluginReportSingleChain) string {
+	td := make([]string, len(r.OffchainTokenData))
+	for i, x := range r.OffchainTokenData {
+		td[i] = cMap(x, func(b []byte) string { return cN(p.datas.Id(hex.EncodeToString(b))) })
+	}
+	pr := cMap(r.Proofs, func(b cciptypes.Bytes32) string { return cN(p.tab.id(b)) })
+	fl := big.NewInt(0)
+	if r.ProofFlagBits.Int != nil {
+		fl = r.ProofFlagBits.Int
+	}
+	return cApp("mkCR", cN(uint64(r.SourceChainSelector)), cMap(r.Messages, p.msgOf), cList(td), pr, cZb(fl))
+}
+
+func vC08PB32(r *vRand) (b [32]byte) {
+	for i := 0; i < 4; i++ {
+		binary.BigEndian.PutUint64(b[8*i:], r.U64())
+	}
+	return
+}
+
+// contract-style re-verification of one chain report against a committed root (independent of the Coq side)
+func vC08PReverify(r cciptypes.ExecutePluginReportSingleChain, root [32]byte) (ok bool) {
+	defer func() {
+		if recover() != nil {
+			ok = false
+		}
+	}()
+	var leaves, ps [][32]byte
+	for _, m := range r.Messages {
+		leaves = append(leaves, m.Header.MessageID)
+	}
+	for _, p := range r.Proofs {
+		ps = append(ps, p)
+	}
+	n := len(leaves) + len(ps) - 1
+	if n < 0 || r.ProofFlagBits.Int == nil {
+		return false
+	}
+	got, err := merklemulti.VerifyComputeRoot(hashutil.NewKeccak(), leaves,
+		merklemulti.Proof[[32]byte]{Hashes: ps, SourceFlags: slicelib.BitFlagsToBools(r.ProofFlagBits.Int, n)})
+	return err == nil && got == root
+}
+
+func TestVerif_C08_outcome(t *testing.T) {
+	ctx := context.Background()
+	r := vNewRand(vSeed() + 804)
+	n := vEnvInt("VERIF_N", 150)
+	sink := vOpenSink("C08_out")
+	defer sink.Close()
+	for i := 0; i < n; i++ {
+		cls := vPick(r, []string{"plain", "plain", "gas-pressure", "gas-pressure", "size-pressure", "size-pressure",
+			"crossnonce", "byzantine-nonce", "tamper-first", "tamper-later", "costly"})
+		chains := []uint64{1, 2, 3}[:r.Range(1, 3)]
+		// three sender addresses shared by all source chains; on-chain nonces differ per chain
+		var sbytes [3][]byte
+		var sstr [3]string
+		for k := range sbytes {
+			b := make([]byte, 20)
+			binary.BigEndian.PutUint64(b, r.U64())
+			b[19] = byte(k)
+			sbytes[k] = b
+			sstr[k] = typeconv.AddressBytesToString(b, uint64(vC08PDest))
+		}
+		onchain := map[uint64][3]uint64{}
+		next := map[uint64][3]uint64{}
+		for _, ch := range chains {
+			var on [3]uint64
+			for k := range on {
+				on[k] = vPick(r, []uint64{0, 3, 10, 41, 100}) + 7*ch
+			}
+			onchain[ch] = on
+			next[ch] = [3]uint64{on[0] + 1, on[1] + 1, on[2] + 1}
+		}
+		if cls == "crossnonce" && len(chains) >= 2 {
+			// the messages of chain 1 continue the nonces of chain 2 and vice versa
+			next[chains[0]] = [3]uint64{onchain[chains[1]][0] + 1, onchain[chains[1]][1] + 1, onchain[chains[1]][2] + 1}
+			next[chains[1]] = [3]uint64{onchain[chains[0]][0] + 1, onchain[chains[0]][1] + 1, onchain[chains[0]][2] + 1}
+		}
+		gas := map[cciptypes.Bytes32]uint64{}
+		tab := &vC08PTab{in: vNewIntern(), rows: map[[2]uint64]bool{}}
+		zeroID := tab.id(hashutil.NewKeccak().ZeroHash())
+		var cds []exectypes.CommitData
+		sumData := 0
+		for _, ch := range chains {
+			seq := uint64(r.Range(1, 40))
+			for k := r.Range(1, 3); k > 0; k-- {
+				nm := vPick(r, []int{0, 1, 2, 3, 4, 5, 6, 8})
+				if nm == 0 && r.Bool() {
+					nm = 3
+				}
+				cd := exectypes.CommitData{SourceChain: cciptypes.ChainSelector(ch), Timestamp: time.Unix(1700000000+int64(seq), 0).UTC(),
+					BlockNum: seq, SequenceNumberRange: cciptypes.NewSeqNumRange(cciptypes.SeqNum(seq), cciptypes.SeqNum(seq+uint64(max(nm, 1))-1))}
+				var leaves [][32]byte
+				nx := next[ch]
+				for j := 0; j < nm; j++ {
+					s := r.Intn(3)
+					m := cciptypes.Message{
+						Header: cciptypes.RampMessageHeader{MessageID: vC08PB32(r), SourceChainSelector: cciptypes.ChainSelector(ch),
+							DestChainSelector: vC08PDest, SequenceNumber: cciptypes.SeqNum(seq + uint64(j))},
+						Sender: append([]byte{}, sbytes[s]...), Data: make([]byte, vPick(r, []int{0, 1, 5, 20, 60}))}
+					if !r.Chance(1, 4) {
+						m.Header.Nonce = nx[s]
+						nx[s]++
+						if r.Chance(1, 25) {
+							nx[s]++
+						}
+					}
+					gas[m.Header.MessageID] = uint64(vPick(r, []int{0, 100, 5000, 90000}))
+					sumData += len(m.Data)
+					cd.Messages = append(cd.Messages, m)
+					leaves = append(leaves, m.Header.MessageID)
+					mtd := exectypes.MessageTokenData{TokenData: []exectypes.TokenData{}}
+					for q := vPick(r, []int{0, 1, 1, 2}); q > 0; q-- {
+						mtd.TokenData = append(mtd.TokenData, exectypes.TokenData{Ready: !r.Chance(1, 10), Data: []byte{byte(r.Intn(5)), byte(q)}})
+					}
+					cd.MessageTokenData = append(cd.MessageTokenData, mtd)
+					if r.Chance(1, 8) {
+						cd.ExecutedMessages = append(cd.ExecutedMessages, m.Header.SequenceNumber)
+					}
+					if (cls == "costly" && r.Chance(1, 3)) || r.Chance(1, 15) {
+						cd.CostlyMessages = append(cd.CostlyMessages, m.Header.MessageID)
+					}
+				}
+				next[ch] = nx
+				cd.MerkleRoot = tab.root(leaves)
+				cds = append(cds, cd)
+				seq += uint64(max(nm, 1)) + uint64(r.Intn(3))
+			}
+		}
+		// tampering: a commit report that does not reproduce its root, first or later in processing order
+		withMsgs := []int{}
+		for k, cd := range cds {
+			if len(cd.Messages) > 0 {
+				withMsgs = append(withMsgs, k)
+			}
+		}
+		if (cls == "tamper-first" || cls == "tamper-later") && len(withMsgs) > 0 {
+			k := withMsgs[0]
+			if cls == "tamper-later" {
+				k = withMsgs[len(withMsgs)-1]
+			}
+			switch r.Intn(3) {
+			case 0:
+				cds[k].MerkleRoot = vC08PB32(r)
+			case 1:
+				cds[k].Messages[r.Intn(len(cds[k].Messages))].Header.MessageID = vC08PB32(r)
+			default:
+				cds[k].Messages = cds[k].Messages[:len(cds[k].Messages)-1]
+				cds[k].MessageTokenData = cds[k].MessageTokenData[:len(cds[k].MessageTokenData)-1]
+			}
+			var leaves [][32]byte
+			for _, m := range cds[k].Messages {
+				leaves = append(leaves, m.Header.MessageID)
+				if _, ok := gas[m.Header.MessageID]; !ok {
+					gas[m.Header.MessageID] = 100
+				}
+			}
+			tab.root(leaves) // rows for the tree the implementation will build
+		}
+		// codec weight: size pressure comes from the message bodies because the plugin's size limit is a constant
+		weight := 16
+		if cls == "size-pressure" && sumData > 0 {
+			weight = vC08PMaxReport * vPick(r, []int{1, 2, 4, 8}) / (2 * sumData)
+		}
+		est := vC08PEst{gas: gas, tga: uint64(r.Range(0, 50)), tgb: uint64(r.Range(0, 9))}
+		codec := vC08PCodec{base: r.Range(0, 20), weight: weight}
+
+		// the agreed nonces and what each oracle observes
+		f := 1
+		nOracles := 4
+		obsNonces := make([]exectypes.NonceObservations, nOracles)
+		for o := range obsNonces {
+			obsNonces[o] = exectypes.NonceObservations{}
+			for _, ch := range chains {
+				obsNonces[o][cciptypes.ChainSelector(ch)] = map[string]uint64{}
+				for k := 0; k < 3; k++ {
+					obsNonces[o][cciptypes.ChainSelector(ch)][sstr[k]] = onchain[ch][k]
+				}
+			}
+		}
+		switch {
+		case cls == "byzantine-nonce":
+			// one oracle reports nonces that would let the first messages through one step early / late
+			for _, ch := range chains {
+				for k := 0; k < 3; k++ {
+					obsNonces[3][cciptypes.ChainSelector(ch)][sstr[k]] = onchain[ch][k] + uint64(r.Range(1, 2))
+				}
+			}
+		case r.Chance(1, 8):
+			obsNonces[r.Intn(nOracles)] = exectypes.NonceObservations{} // a silent oracle
+		case r.Chance(1, 8):
+			// a sender known to one oracle only: not agreed
+			delete(obsNonces[0][cciptypes.ChainSelector(chains[0])], sstr[2])
+			delete(obsNonces[1][cciptypes.ChainSelector(chains[0])], sstr[2])
+			delete(obsNonces[2][cciptypes.ChainSelector(chains[0])], sstr[2])
+		}
+
+		// dry run with the real builder and no limits to place BatchGasLimit at a boundary
+		dry := report.NewBuilder(mocks.NullLogger, mocks.NewMessageHasher(), codec, est,
+			map[cciptypes.ChainSelector]map[string]uint64(obsNonces[1]), vC08PDest, 1<<62, 1<<62)
+		var gasTotal, gasFirst uint64
+		func() {
+			defer func() { _ = recover() }()
+			for _, cd := range cds {
+				if len(cd.Messages) == 0 {
+					continue
+				}
+				cp := cd
+				cp.ExecutedMessages = append([]cciptypes.SeqNum{}, cd.ExecutedMessages...)
+				if _, err := dry.Add(ctx, cp); err != nil {
+					return
+				}
+			}
+		}()
+		built, _ := dry.Build()
+		for k, b := range built {
+			g := est.CalculateMerkleTreeGas(len(b.Messages))
+			for _, m := range b.Messages {
+				g += est.CalculateMessageMaxGas(m)
+			}
+			gasTotal += g
+			if k == 0 {
+				gasFirst = g
+			}
+		}
+		batchGas := gasTotal + uint64(r.Intn(1000))
+		if cls == "gas-pressure" || r.Chance(1, 6) {
+			batchGas = vPick(r, []uint64{gasTotal, gasTotal - min(gasTotal, 1), gasTotal / 2, gasTotal / 4 * 3, gasFirst, gasTotal / 4, 50})
+		}
+		if r.Chance(1, 10) {
+			batchGas = vC08PMaxReport // equal limits: a swap is invisible here, and must not be flagged
+		}
+
+		// ---- the plugin ----
+		hc := vNewHomeChain()
+		ids := []commontypes.OracleID{0, 1, 2, 3}
+		p2p := map[commontypes.OracleID]libocrtypes.PeerID{}
+		var peers []libocrtypes.PeerID
+		for _, o := range ids {
+			p2p[o] = vPeer(int(o))
+			peers = append(peers, vPeer(int(o)))
+		}
+		for _, ch := range chains {
+			hc.SetChain(cciptypes.ChainSelector(ch), 1, peers)
+		}
+		hc.SetChain(vC08PDest, f, peers)
+		pl := &Plugin{
+			reportingCfg:    ocr3types.ReportingPluginConfig{OracleID: 0, F: 1, N: 4},
+			offchainCfg:     pluginconfig.ExecuteOffchainConfig{BatchGasLimit: batchGas},
+			destChain:       vC08PDest,
+			reportCodec:     codec,
+			msgHasher:       mocks.NewMessageHasher(),
+			homeChain:       hc,
+			chainSupport:    plugincommon.NewChainSupport(mocks.NullLogger, hc, p2p, 0, vC08PDest),
+			oracleIDToP2pID: p2p,
+			estimateProvider: est,
+			lggr:            mocks.NullLogger,
+		}
+		prevOutcome := exectypes.NewOutcome(exectypes.GetMessages, cds, cciptypes.ExecutePluginReport{})
+		prev, err := prevOutcome.Encode()
+		if err != nil {
+			t.Fatal(err)
+		}
+		var aos []types.AttributedObservation
+		for o := 0; o < nOracles; o++ {
+			ob, err := exectypes.Observation{Nonces: obsNonces[o]}.Encode()
+			if err != nil {
+				t.Fatal(err)
+			}
+			aos = append(aos, types.AttributedObservation{Observation: ob, Observer: ids[o]})
+		}
+
+		// ---- input term: the pending commit reports exactly as the plugin will decode them ----
+		decPrev, err := exectypes.DecodeOutcome(prev)
+		if err != nil {
+			t.Fatal(err)
+		}
+		p := &vC08PPrinter{tab: tab, senders: vNewIntern(), datas: vNewIntern(), gas: gas, weight: weight}
+		cdsS := cMap(decPrev.PendingCommitReports, p.cdOf)
+		obsS := make([]string, nOracles)
+		for o := range obsNonces {
+			var rows []string
+			for _, ch := range chains {
+				var keys []string
+				for s := range obsNonces[o][cciptypes.ChainSelector(ch)] {
+					keys = append(keys, s)
+				}
+				sort.Strings(keys)
+				for _, s := range keys {
+					rows = append(rows, cPair(cPair(cN(ch), cN(p.senders.Id(s))), cN(obsNonces[o][cciptypes.ChainSelector(ch)][s])))
+				}
+			}
+			obsS[o] = cList(rows)
+		}
+
+		// ---- run ----
+		var out string
+		nrep, ninc := 0, 0
+		goVerified := true
+		func() {
+			defer func() {
+				if recover() != nil {
+					out = "Panic"
+				}
+			}()
+			ob, err := pl.Outcome(ctx, ocr3types.OutcomeContext{SeqNr: 3, PreviousOutcome: prev}, nil, aos)
+			if err != nil {
+				out = "Err"
+				return
+			}
+			oc, err := exectypes.DecodeOutcome(ob)
+			if err != nil {
+				out = "Err"
+				return
+			}
+			nrep = len(oc.Report.ChainReports)
+			for _, cr := range oc.Report.ChainReports {
+				ninc += len(cr.Messages)
+				// independent Go-side check: the report verifies against the root of some input commit report of its chain
+				okAny := false
+				for _, cd := range decPrev.PendingCommitReports {
+					if cd.SourceChain == cr.SourceChainSelector && vC08PReverify(cr, cd.MerkleRoot) {
+						okAny = true
+					}
+				}
+				goVerified = goVerified && okAny
+			}
+			if !goVerified {
+				out = "Panic" // not expressible as a model answer: flagged
+				return
+			}
+			out = "(Ok " + cPair(cMap(oc.Report.ChainReports, p.repOf), cMap(oc.PendingCommitReports, p.cdOf)) + ")"
+		}()
+		cfg := cApp("mkCfg", cList(tab.list), cN(zeroID), "[]", cN(0), cN(batchGas), cN(est.tga), cN(est.tgb),
+			cNi(codec.base), cNi(-1+2000000000))
+		in := cTup(cfg, cNi(f), cList(obsS), cdsS)
+		sink.Emit("C08_out", cls, nrep > 0, cPair(in, out), map[string]any{"class": cls, "chains": len(chains),
+			"commit_reports": len(cds), "batch_gas_limit": batchGas, "codec_weight": weight, "unlimited_gas": gasTotal,
+			"chain_reports": nrep, "messages_included": ninc, "outcome": out[:min(len(out), 5)]})
 	}
 }
